@@ -170,9 +170,16 @@ func encodeMap(v reflect.Value, o *Opts) *Node {
 	n := &Node{Kind: 'o'}
 	it := v.MapRange()
 	for it.Next() {
-		k, ok := it.Key().Interface().(string)
-		if !ok {
-			continue // only string keys are explored
+		var k string
+		switch it.Key().Kind() {
+		case reflect.String:
+			k = it.Key().String()
+		case reflect.Int, reflect.Int8, reflect.Int16, reflect.Int32, reflect.Int64:
+			k = strconv.FormatInt(it.Key().Int(), 10) // an integer key is written as its decimal text (encoding/json, alt.Decompose)
+		case reflect.Uint, reflect.Uint8, reflect.Uint16, reflect.Uint32, reflect.Uint64:
+			k = strconv.FormatUint(it.Key().Uint(), 10)
+		default:
+			continue // other key types are not explored
 		}
 		val := encode(it.Value(), o)
 		pres, keep := memberPresence(it.Value(), val, o, false)
